@@ -215,6 +215,12 @@ K void k_store_arr_long22(uint64_t base, uint64_t p, long a, long b, long c, lon
 K void k_load_arr_long22(uint64_t base, uint64_t p) { S::g_base = base; auto t = mk_tainted<long(*)[2][2], S>(p); tainted<long[2][2], S> v = *t;
   env_log(1, (uint64_t)v[0][0].UNSAFE_unverified(), (uint64_t)v[0][1].UNSAFE_unverified(), 0);
   env_log(2, (uint64_t)v[1][0].UNSAFE_unverified(), (uint64_t)v[1][1].UNSAFE_unverified(), 0); }
+K void k_store_struct(uint64_t base, uint64_t p, long a, uint64_t b, int c) { S::g_base = base; auto ps = mk_tainted<VS24*, S>(p);
+  tainted<VS24, S> t; t.a = a; t.b = mk_tainted<int*, S>(b); t.c = c; *ps = t; }
+K void k_load_struct(uint64_t base, uint64_t p) { S::g_base = base; auto ps = mk_tainted<VS24*, S>(p); tainted<VS24, S> t = *ps;
+  env_log(1, (uint64_t)t.a.UNSAFE_unverified(), raw_bits(t.b), (uint64_t)(int64_t)t.c.UNSAFE_unverified()); }
+K void k_store_field_b(uint64_t base, uint64_t p, uint64_t b) { S::g_base = base; auto t = mk_tainted<VS24*, S>(p); t->b = mk_tainted<int*, S>(b); }
+K uint64_t k_load_field_b(uint64_t base, uint64_t p) { S::g_base = base; auto t = mk_tainted<VS24*, S>(p); tainted<int*, S> x = t->b; return raw_bits(x); }
 K void k_store_ptrarr2(uint64_t base, uint64_t p, uint64_t a, uint64_t b) { S::g_base = base; auto t = mk_tainted<int*(*)[2], S>(p);
   (*t)[0] = mk_tainted<int*, S>(a); (*t)[1] = mk_tainted<int*, S>(b); }
 '''
@@ -332,6 +338,63 @@ def check_agg(ctx, k, log=32):
         ctx.only(paths, "ret")
         ctx.expect(paths, ret=1)
         ctx.validate(k, [[b0, b0 + size - 12]], mem={b0 + size - 12 + i: (0x85 + 3 * i) & 0xFF for i in range(12)}, base=b0)
+    elif k == "k_store_struct":
+        fit(12)
+        a = ctx.sym("a", 64)
+        b = ctx.sym("b", 64)
+        c = ctx.sym("c", 32)
+        ctx.assume(z3.Or(b == 0, ctx.in_region(b, base, size)))
+        fits = z3.And(sext(a, 128) >= -(1 << 31), sext(a, 128) < (1 << 31))
+        paths = ctx.run(k, [base, p, a, b, c])
+        rep = lambda v: z3.If(v == 0, BV(0, 32), z3.Extract(31, 0, v - base))
+        for q in paths:
+            if q.status == "ret":
+                ctx.require(q, z3.And(fits, decode(q.mem, p, 4) == z3.Extract(31, 0, a), decode(q.mem, p + BV(4, 64), 4) == rep(b), decode(q.mem, p + BV(8, 64), 4) == c),
+                            "a whole-struct store writes every field at its guest offset in its guest encoding (pointer field relative to the destination's sandbox)")
+                ctx.require(q, unchanged(q, p, 12), "nothing outside the 12 guest bytes of the struct changes")
+            elif q.status == "abort":
+                ctx.require(q, z3.Not(fits), "aborts only when a field value does not fit its guest type")
+        ctx.only(paths, "ret", "abort")
+        ctx.expect(paths, ret=1, abort=1)
+        ctx.validate(k, [[b0, b0 + size - 12, 7, b0 + 0x1234, 9], [b0, b0 + 0x40, 0x7FFFFFFF, 0, 0xFFFFFFFF]], base=b0)
+    elif k == "k_load_struct":
+        fit(12)
+        paths = ctx.run(k, [base, p])
+        for q in paths:
+            if q.status == "ret":
+                lg = q.user["log"][0]
+                rb = decode(mem0, p + BV(4, 64), 4)
+                ctx.require(q, z3.And(lg[1] == sext(decode(mem0, p, 4), 64), lg[2] == z3.If(rb == 0, BV(0, 64), base + zext(rb, 64)),
+                                      lg[3] == sext(decode(mem0, p + BV(8, 64), 4), 64)),
+                            "a whole-struct load decodes every field from its guest offset and encoding")
+                ctx.require(q, footprint_ok(ctx, q, p, 12, LD), "reads stay inside the 12 guest bytes of the struct")
+        ctx.only(paths, "ret")
+        ctx.expect(paths, ret=1)
+        ctx.validate(k, [[b0, b0 + size - 12]], mem={b0 + size - 12 + i: (0x85 + 3 * i) & 0xFF for i in range(12)}, base=b0)
+    elif k == "k_store_field_b":
+        fit(12)
+        b = ctx.sym("b", 64)
+        ctx.assume(z3.Or(b == 0, ctx.in_region(b, base, size)))
+        paths = ctx.run(k, [base, p, b])
+        for q in paths:
+            if q.status == "ret":
+                lo = p + BV(4, 64)
+                ctx.require(q, z3.And(decode(q.mem, lo, 4) == z3.If(b == 0, BV(0, 32), z3.Extract(31, 0, b - base)), unchanged(q, lo, 4)),
+                            "a pointer-field store changes exactly the field's 4 guest bytes at its guest offset")
+        ctx.only(paths, "ret")
+        ctx.expect(paths, ret=1)
+        ctx.validate(k, [[b0, b0 + size - 12, b0 + 0x77], [b0, b0 + 0x40, 0]], base=b0)
+    elif k == "k_load_field_b":
+        fit(12)
+        paths = ctx.run(k, [base, p])
+        for q in paths:
+            if q.status == "ret":
+                rb = decode(mem0, p + BV(4, 64), 4)
+                ctx.require(q, q.ret == z3.If(rb == 0, BV(0, 64), base + zext(rb, 64)), "a pointer-field load decodes the field's 4 guest bytes")
+                ctx.require(q, footprint_ok(ctx, q, p + BV(4, 64), 4, LD), "reads only the field's bytes")
+        ctx.only(paths, "ret")
+        ctx.expect(paths, ret=1)
+        ctx.validate(k, [[b0, b0 + size - 12]], mem={b0 + size - 12 + i: (0x85 + 3 * i) & 0xFF for i in range(12)}, base=b0)
     elif k == "k_store_ptrarr2":
         fit(8)
         a = ctx.sym("a", 64)
@@ -346,6 +409,46 @@ def check_agg(ctx, k, log=32):
         ctx.only(paths, "ret")
         ctx.expect(paths, ret=1)
         ctx.validate(k, [[b0, b0 + size - 8, b0 + 5, 0]], base=b0)
+
+
+def check_bm_struct(ctx, k):
+    size = 1 << 32
+    b0 = ctx.sandbox_base(32, "b0", aligned=False)
+    b1 = ctx.sandbox_base(32, "b1", aligned=False)
+    ctx.assume(z3.Or(z3.UGE(b0, b1 + BV(size, 64)), z3.UGE(b1, b0 + BV(size, 64))), z3.Or(z3.UGE(b0 - b1, BV(size, 64)), z3.UGE(b1 - b0, BV(size, 64))))
+    p = ctx.sym("p", 64)
+    own = [z3.And(z3.UGE(p, bb), z3.ULE(p - bb, BV(size - 12, 64))) for bb in (b0, b1)]
+    ctx.assume(z3.Or(*own))
+    ob = z3.If(own[0], b0, b1)
+    mem0 = ctx.eng.initial_memory()
+    x = ctx.sym("x_any", 64)
+    if k == "k_bm_store_struct":
+        a = ctx.sym("a", 64)
+        b = ctx.sym("b", 64)
+        c = ctx.sym("c", 32)
+        ctx.assume(z3.Or(b == 0, ctx.in_region(b, ob, size)))
+        fits = z3.And(sext(a, 128) >= -(1 << 31), sext(a, 128) < (1 << 31))
+        paths = ctx.run(k, [b0, b1, p, a, b, c])
+        for q in paths:
+            if q.status == "ret":
+                ctx.require(q, z3.And(fits, decode(q.mem, p, 4) == z3.Extract(31, 0, a), decode(q.mem, p + BV(4, 64), 4) == z3.If(b == 0, BV(0, 32), z3.Extract(31, 0, b - ob)),
+                                      decode(q.mem, p + BV(8, 64), 4) == c),
+                            "every field is written at its guest offset; the pointer field is encoded relative to the sandbox that owns the destination")
+                ctx.require(q, z3.Implies(z3.Or(z3.ULT(x, p), z3.UGE(x - p, BV(12, 64))), z3.Select(q.mem, x) == z3.Select(mem0, x)), "nothing outside the struct's 12 guest bytes changes")
+            elif q.status == "abort":
+                ctx.require(q, z3.Not(fits), "aborts only when a field value does not fit its guest type")
+        ctx.only(paths, "ret", "abort")
+        ctx.expect(paths, ret=1, abort=1)
+    else:
+        paths = ctx.run(k, [b0, b1, p])
+        for q in paths:
+            if q.status == "ret":
+                lg = q.user["log"][0]
+                rb = decode(mem0, p + BV(4, 64), 4)
+                ctx.require(q, z3.And(lg[1] == sext(decode(mem0, p, 4), 64), lg[2] == z3.If(rb == 0, BV(0, 64), ob + zext(rb, 64)), lg[3] == sext(decode(mem0, p + BV(8, 64), 4), 64)),
+                            "every field is decoded from its guest offset; the pointer field relative to the sandbox that owns the source")
+        ctx.only(paths, "ret")
+        ctx.expect(paths, ret=1)
 
 
 NOOP_SRC = r'''
@@ -390,7 +493,7 @@ def check_noop(ctx, k):
 
 
 AGG = ["k_store_arr_int3", "k_store_arr_long3", "k_store_arr_long22", "k_load_arr_long22", "k_load_arr_long3", "k_store_elem_long", "k_store_field_a", "k_store_field_c",
-       "k_load_field_a", "k_load_field_c", "k_store_ptrarr2"]
+       "k_load_field_a", "k_load_field_c", "k_store_ptrarr2", "k_store_struct", "k_load_struct", "k_store_field_b", "k_load_field_b"]
 
 
 def jobs(tier, seed):
@@ -412,5 +515,6 @@ def jobs(tier, seed):
             out.append(Job("C07_%s_%d" % (sbx, gi), "\n".join(src) + "\n", chks))
     out.append(Job("C07_noop", NOOP_SRC, [dict(name="noop " + k, fn=check_noop, kw=dict(k=k))
                                           for k in ("k_noop_copy_ptrarr", "k_noop_copy_intarr", "k_noop_store_ptrarr", "k_noop_copy_int43")]))
+    out.append(Job("C07_BM_struct", '#include "C07_bm.inc"\n', [dict(name="BM " + k, fn=check_bm_struct, kw=dict(k=k)) for k in ("k_bm_store_struct", "k_bm_load_struct")], native=False))
     out.append(Job("C07_agg", C.PRELUDE + "using S = B32;\n" + AGG_SRC, [dict(name="B32 " + k, fn=check_agg, kw=dict(k=k)) for k in AGG]))
     return out
